@@ -39,6 +39,10 @@ func (exec *Executor) compareItems(ctx context.Context, node ast.Node, left, rig
 	case int64, float64, json.Number:
 		switch right.(type) {
 		case int64, float64, json.Number:
+			if !comparableNumber(left) || !comparableNumber(right) {
+				// json.Number outside the range of int64 and float64.
+				return predUnknown, nil
+			}
 			cmp = compareNumeric(left, right)
 		default:
 			return predUnknown, nil
@@ -119,6 +123,19 @@ func compareNumbers[T int | int64 | float64](left, right T) int {
 		return 1
 	}
 	return 0
+}
+
+// comparableNumber returns false if num is a json.Number that can be parsed
+// neither into an int64 nor into a float64.
+func comparableNumber(num any) bool {
+	if num, ok := num.(json.Number); ok {
+		if _, err := num.Int64(); err != nil {
+			if _, err := num.Float64(); err != nil {
+				return false
+			}
+		}
+	}
+	return true
 }
 
 // compareBool compares two numeric values and returns 0, 1, or -1. The left
